@@ -348,6 +348,9 @@ FILE *simfs_open(const char *path, const char *mode)
     int saved_in_lib = g_sim.in_lib;
     g_sim.in_lib = 0;	// allocations of the stdio layer are not the library's
     FILE *fp = fopencookie(c, writing ? "w" : "r", io);
+    // an unbuffered *write* stream loses the error of a failed write unless the caller checks
+    // ferror(); libvna's contract is the fclose result, so write streams are at least 1-byte buffered
+    if (writing && ff.bufsize == 0) ff.bufsize = 1;
     if (fp && ff.bufsize >= 0) {
 	if (ff.bufsize == 0) setvbuf(fp, nullptr, _IONBF, 0);
 	else {
